@@ -376,12 +376,58 @@ func (w *sfwWorld) genRule(incoming bool) fwRule {
 	return r
 }
 
+// sibling derives a rule that lands in the same proto/port/CA bucket as prev and shares one of its
+// selectors, differing in local_cidr or in the width of the remote cidr: rule tables in which several
+// entries hang off the same host / group / nested prefixes.
+func (w *sfwWorld) sibling(prev fwRule) fwRule {
+	tp := w.tp
+	r := prev
+	r.Groups = append([]string(nil), prev.Groups...)
+	locals := []string{"", "any", netip.PrefixFrom(w.ref.vAddrs[0], 32).String(), "10.128.0.0/24", "10.99.0.0/16"}
+	if len(w.ref.vUnsafe) > 0 {
+		locals = append(locals, w.ref.vUnsafe[0].String())
+	}
+	switch tp.Choose(3) {
+	case 0: // same selectors, other local_cidr
+		r.LocalCidr = locals[tp.Choose(len(locals))]
+	case 1: // nested remote cidr, other local_cidr
+		p := w.peers[tp.Choose(len(w.peers))]
+		nest := []string{netip.PrefixFrom(p.addrs[0], p.addrs[0].BitLen()).String(), "10.128.0.0/25", "10.128.0.0/24", "10.128.0.0/16", "0.0.0.0/0"}
+		r.Cidr = nest[tp.Choose(len(nest))]
+		r.LocalCidr = locals[tp.Choose(len(locals))]
+	case 2: // same bucket, other selector kind
+		p := w.peers[tp.Choose(len(w.peers))]
+		r.Host, r.Cidr, r.Groups = "", "", nil
+		switch tp.Choose(3) {
+		case 0:
+			r.Host = p.name
+		case 1:
+			r.Groups = []string{[]string{"g1", "g2", "g3"}[tp.Choose(3)]}
+		case 2:
+			r.Cidr = netip.PrefixFrom(p.addrs[0], p.addrs[0].BitLen()).String()
+		}
+		r.LocalCidr = locals[tp.Choose(len(locals))]
+	}
+	if r.Host == "" && len(r.Groups) == 0 && r.Cidr == "" && r.LocalCidr == "" && r.CAName == "" && r.CASha == "" {
+		r.Host = "any" // a rule needs at least one selector
+	}
+	return r
+}
+
 func (w *sfwWorld) genRules() ([]fwRule, []fwRule) {
 	var in, out []fwRule
 	for i, n := 0, w.tp.Choose(6); i < n; i++ {
+		if len(in) > 0 && w.tp.Chance(1, 3) {
+			in = append(in, w.sibling(in[w.tp.Choose(len(in))]))
+			continue
+		}
 		in = append(in, w.genRule(true))
 	}
 	for i, n := 0, w.tp.Choose(6); i < n; i++ {
+		if len(out) > 0 && w.tp.Chance(1, 3) {
+			out = append(out, w.sibling(out[w.tp.Choose(len(out))]))
+			continue
+		}
 		out = append(out, w.genRule(false))
 	}
 	return in, out
